@@ -49,15 +49,36 @@ fn main() {
                     tier = Tier::Thorough;
                 }
             }
+            "--case" => {
+                i += 1;
+                let (g, idx) = args[i].split_once(':').expect("--case group:index");
+                replay = Some((g.to_string(), idx.parse().unwrap(), u64::MAX));
+            }
             _ => usage(),
         }
         i += 1;
     }
+    #[cfg(feature = "dbglog")]
+    if std::env::var("QV_LOG").is_ok() {
+        tracing_subscriber::fmt().with_env_filter(std::env::var("QV_LOG").unwrap()).with_writer(std::io::stderr).init();
+    }
     check::install_panic_hook();
     let prop: &'static str = Box::leak(id.clone().into_boxed_str());
-    let ctx = Ctx { prop, tier, seed, threads, replay, verbose: false };
+    let mut ctx = Ctx { prop, tier, seed, threads, replay, verbose: false };
+    if let Some((g, idx, s)) = ctx.replay.clone() {
+        if s == u64::MAX {
+            let cs = check::case_seed(&ctx, &g, idx);
+            ctx.replay = Some((g, idx, cs));
+        }
+    }
     let code = match id.as_str() {
         "C01" | "ANY" => check::c01::run(&ctx),
+        "C02" => check::c02::run(&ctx),
+        "C05" => check::hon::run_c05(&ctx),
+        "C07" => check::hon::run_c07(&ctx),
+        "C12" => check::hon::run_c12(&ctx),
+        "C13" => check::hon::run_c13(&ctx),
+        "C16" => check::hon::run_c16(&ctx),
         _ => {
             eprintln!("unknown property {id}");
             2
